@@ -42,11 +42,22 @@ class Verifier(Stmts):
         self.ctor_param_fields = {}
         self.vacuity = []
         self._sym_cache = {}
+        self._ghost_defs = set()
         self.spec_globals = {'ZERO32': bytes(32)}
         from .engine import EMPTY_MAP
         self.spec_globals['EMPTY_UTXO'] = EMPTY_MAP
         self.spec_globals['EMPTY_MAP'] = EMPTY_MAP
         self.spec_globals['INTS'] = 'ALL-INTS'
+        # module-level functions under contract are callable in specifications by their short name
+        for q in cset.contracts:
+            parts = q.split('.')
+            if len(parts) >= 3 and parts[-2][:1].islower():
+                try:
+                    self.spec_globals.setdefault(parts[-1], self.resolve(q))
+                except Exception:
+                    pass
+        if 'OutputReference' in registry.classes:
+            self.spec_globals['UTXO_MAP'] = MAP(CLS('OutputReference'), CLS('Output'))
         for ci in registry.classes.values():
             self.spec_globals[ci.name] = ci.pyclass
         for pyc, rn in registry.abstract.items():
@@ -235,8 +246,10 @@ class Verifier(Stmts):
         env = {}
         # parameters as they were on entry are available as old(x); current bindings are in the frame
         env['result'] = result
-        env = self.with_lets(con, st, env)
-        return env
+        # lets are entry values: evaluate them in the pre-state (parameters may have been re-bound by the body)
+        lets = self.with_lets(con, st.old if st.old is not None else st, {})
+        lets.update(env)
+        return lets
 
     def check_normal(self, con, qn, st, result, pre_vars):
         env = self.post_env(con, st, result, pre_vars)
@@ -303,11 +316,14 @@ class Verifier(Stmts):
             nenv['result'] = result
             nenv = self.with_lets(con, normal, {'result': result})
             feasible = True
-            for text in con.ensures_ + con.on_any_:
-                normal.assume(self.spec_bool(text, normal, nenv))
-            if con.predicate_:
-                normal.assume(self.predicate_term(con, vals, normal))
-            if isinstance(result, V) and result.ty.kind != 'any':
+            if not st.spec or con.spec_facts:
+                # inside a specification a summarised call is just the summary term: the callee's post-conditions are
+                # brought in explicitly where a lemma needs them (use_contract), not silently at every mention
+                for text in con.ensures_ + con.on_any_:
+                    normal.assume(self.spec_bool(text, normal, nenv))
+                if con.predicate_ and not st.spec:
+                    normal.assume(self.predicate_term(con, vals, normal))
+            if isinstance(result, V) and result.ty.kind != 'any' and not st.spec:
                 self.assume_valid(result, normal)
             normal.old = st.old
             if st.spec:
@@ -376,8 +392,35 @@ class Verifier(Stmts):
         # one axiom per clause, so that a clause that is itself universally quantified can be flattened and instantiated
         return [z3.ForAll(consts, z3.Implies(hyp, self.b(cl)), patterns=[pred]) for cl in concl]
 
-    def quick_prove(self, hyps, goal, timeout_ms=2000):
-        r, _ = self._try(hyps, goal, 500)
+    def quick_prove(self, hyps, goal, timeout_ms=3000):
+        from .inst import conjuncts
+        goal = self.b(goal)
+        parts = [c for c in conjuncts(goal) if not z3.is_true(c)]
+        flat = []
+        for h in hyps:
+            flat.extend(conjuncts(h))
+        if all(any(c.eq(h) for h in flat) for c in parts):
+            return True
+        # conjunct by conjunct: equal to a hypothesis, or a consequence of ONE hypothesis (e.g. alpha-variants)
+        remaining = []
+        for c in parts:
+            if any(c.eq(h) for h in flat):
+                continue
+            if self.hard_for_pruning(c):
+                cands = [h for h in flat if z3.is_quantifier(h)]
+                if not any(self._try([h], c, 300)[0] == z3.unsat for h in cands):
+                    remaining.append(c)
+            else:
+                remaining.append(c)
+        if not remaining:
+            return True
+        goal = z3.And(*remaining) if len(remaining) > 1 else remaining[0]
+        # only the quantifier-free hypotheses first (fast), then everything
+        qf = [h for h in flat if not self.hard_for_pruning(h)]
+        r0, _ = self._try(qf, goal, 1000)
+        if r0 == z3.unsat:
+            return True
+        r, _ = self._try(hyps, goal, 1000)
         if r == z3.unsat:
             return True
         try:
@@ -387,6 +430,13 @@ class Verifier(Stmts):
             return r2 == z3.unsat
         except z3.Z3Exception:
             return False
+
+    def have(self, st, text_or_formula, name, env=None, terms=()):
+        """lemma step: prove a fact from the current state (named obligation), then keep it as a hypothesis"""
+        f = self.spec_bool(text_or_formula, st, env) if isinstance(text_or_formula, str) else text_or_formula
+        self.oblige(st, f, name, text_or_formula if isinstance(text_or_formula, str) else str(f)[:200], terms=terms)
+        st.assume(f)
+        return f
 
     def use_contract(self_, st, qualname, **args):
         self = self_
@@ -416,10 +466,37 @@ class Verifier(Stmts):
         finally:
             sub.stack.pop()
         guard = self.b(self._and(pre + [pred]))
+        hyps_now = list(self.axioms) + list(self.func_axioms) + list(st.pc)
+
+        def roi_refuted():
+            # every raising path satisfies all raises_only_if clauses; if their conjunction is refuted here, the call
+            # returns normally (termination: loops range over finite sequences)
+            if not con.raises_only_if_:
+                return False
+            sub.stack.append(Frame(dict(vals), None, func.__globals__, qualname + ':use'))
+            try:
+                for lname, _t in con.lets:
+                    sub.frame.vars[lname] = env[lname]
+                roi = [self.b(self.spec_bool(t, sub, env)) for t in con.raises_only_if_]
+            finally:
+                sub.stack.pop()
+            return self.quick_prove(hyps_now, z3.Not(z3.And(*roi)))
+        if con.predicate_:
+            if not self.quick_prove(hyps_now, pred) and roi_refuted():
+                st.assume(pred)
+        elif not con.never_raises:
+            if not roi_refuted():
+                raise Outside("use_contract(%s): cannot establish that the call returns normally" % qualname)
         if self.quick_prove(list(self.axioms) + list(self.func_axioms) + list(st.pc), guard):
+            self.last_used_facts = []
             for f in facts:
+                # a conditional clause whose condition already holds here is recorded unconditionally
+                while z3.is_implies(f) and self.quick_prove(list(st.pc), f.arg(0), timeout_ms=1500):
+                    f = f.arg(1)
                 st.assume(f)
+                self.last_used_facts.append(f)
             return True
+        self.last_used_facts = [z3.Implies(guard, f) for f in facts]
         st.assume(z3.Implies(guard, z3.And(*facts)) if facts else z3.BoolVal(True))
         return False
 
@@ -545,6 +622,16 @@ class Verifier(Stmts):
             ob.status, ob.backend = 'discharged', 'trivial'
             return ob
         self.solver_calls += 1
+        # 0. quantifier-free hypotheses only (most path obligations need nothing else; dropping hypotheses is sound)
+        from .inst import _contains_quantifier
+        qf = [h for h in ob.hyps if not _contains_quantifier(h)]
+        if len(qf) < len(ob.hyps) and not _contains_quantifier(ob.goal):
+            r0, _s0 = self._try(qf, ob.goal, min(1000, self.timeout_ms))
+            if r0 == z3.unsat:
+                ob.status, ob.backend = 'discharged', 'z3/ground'
+                ob.seconds = time.time() - t0
+                self.solver_seconds += ob.seconds
+                return ob
         # 1. full hypothesis set, short budget (the common case: milliseconds)
         r, s = self._try(ob.hyps, ob.goal, min(1500, self.timeout_ms))
         if r == z3.unsat:
@@ -552,19 +639,44 @@ class Verifier(Stmts):
         elif r == z3.sat:
             ob.status, ob.backend, ob.model = 'refuted', 'z3', s.model()
         else:
+            # 1b. focused instantiation: only the terms of the goal (and those a lemma script names), two rounds
+            try:
+                from .inst import instantiate
+                fh, fcore, fn_, _fl = instantiate(ob.hyps, ob.goal, rounds=2, focused=True, extra_terms=ob.terms,
+                                                  max_instances=1500)
+                rf, _sf = self._try(fh, fcore, min(5000, self.timeout_ms))
+                if rf == z3.unsat:
+                    ob.status, ob.backend = 'discharged', 'z3/focused(%d)' % fn_
+            except z3.Z3Exception as e:
+                ob.detail += 'focused instantiation failed: %s; ' % e
+        if ob.status is None and r != z3.sat:
             # 2. deterministic instantiation on index terms (quantifier-free problem)
+            candidate = None
             try:
                 from .inst import instantiate
                 ghyps, core, n_inst, leftover = instantiate(ob.hyps, ob.goal)
-                ri, _si = self._try(ghyps, core, min(6000, self.timeout_ms))
+                ri, si = self._try(ghyps, core, min(6000, self.timeout_ms))
                 if ri == z3.unsat:
                     ob.status, ob.backend = 'discharged', 'z3/instantiated(%d)' % n_inst
                 elif leftover:
                     ri2, _ = self._try(ghyps + leftover, core, min(6000, self.timeout_ms))
                     if ri2 == z3.unsat:
                         ob.status, ob.backend = 'discharged', 'z3/instantiated+q(%d)' % n_inst
+                if ob.status is None and ri == z3.sat:
+                    candidate = si.model()      # a model of the instantiated problem: candidate counterexample
             except z3.Z3Exception as e:
                 ob.detail += 'instantiation failed: %s; ' % e
+            if ob.status is None and candidate is not None:
+                # the instantiated problem has a model: most likely a genuine counterexample; spend little more
+                r3, s3 = self._try(ob.hyps, ob.goal, min(8000, self.timeout_ms))
+                if r3 == z3.unsat:
+                    ob.status, ob.backend = 'discharged', 'z3'
+                elif r3 == z3.sat:
+                    ob.status, ob.backend, ob.model = 'refuted', 'z3', s3.model()
+                else:
+                    ob.status, ob.backend, ob.model = 'unknown', 'z3', candidate
+                    ob.detail += 'z3: unknown on the quantified problem (%s); the instantiated problem is satisfiable ' \
+                                 '(candidate counterexample attached)' % s3.reason_unknown()
             # 3. relevance-filtered subsets
             for k, lv in enumerate(self.relevance_levels(ob) if ob.status is None else []):
                 r2, _s2 = self._try(lv, ob.goal, min(4000, self.timeout_ms))
